@@ -321,7 +321,12 @@ func runRig(c rigCase) (viol string, moved bool) {
 			viol = fmt.Sprintf("Go panic: %v", r)
 		}
 	}()
-	const memBytes = 512
+	memBytes := 512
+	for _, r := range c.Reqs {
+		if r.Line >= 8 {
+			memBytes = 2048 // capacity schedules: more lines than an L1 holds
+		}
+	}
 	rig := sim.NewRig(c.Variant, c.Cores, memBytes)
 	mem := rig.Memory()
 	for i := range mem {
@@ -347,7 +352,12 @@ func runRig(c rigCase) (viol string, moved bool) {
 	for _, f := range c.Flushes {
 		flushAt[f.At] = append(flushAt[f.At], f.Core)
 	}
-	limit := 400*(len(c.Reqs)+2) + 2000
+	// a request takes at most a line fetch plus the write-back of a victim
+	// (2 x 309 cycles, serialised per core) after its issue delay
+	limit := 700*(len(c.Reqs)+2) + 2000
+	for _, r := range c.Reqs {
+		limit += r.Delay
+	}
 	for cycle := 1; cycle <= limit; cycle++ {
 		rig.Snoop()
 		busy := false
@@ -417,6 +427,25 @@ func TestC06RigRandom(t *testing.T) {
 	rapid.Check(t, func(rt *rapid.T) {
 		c := rigCase{Variant: rapid.SampledFrom(rigVariants).Draw(rt, "variant"), Cores: rapid.IntRange(2, 4).Draw(rt, "cores")}
 		n := rapid.IntRange(1, 8).Draw(rt, "nreq")
+		if rapid.IntRange(0, 5).Draw(rt, "capacity") == 0 {
+			// capacity schedule: core 0 writes 17-19 distinct lines one after the
+			// other, so that its 16-line L1 has to evict Modified lines; the other
+			// cores touch the first lines around the time of those write-backs
+			n = 0
+			k := rapid.IntRange(17, 19).Draw(rt, "fill")
+			for i := 0; i < k; i++ {
+				c.Reqs = append(c.Reqs, rigReq{Core: 0, Write: true, Line: i, Word: rapid.IntRange(0, 15).Draw(rt, "word")})
+			}
+			for i := rapid.IntRange(1, 4).Draw(rt, "others"); i > 0; i-- {
+				c.Reqs = append(c.Reqs, rigReq{
+					Core:  rapid.IntRange(1, c.Cores-1).Draw(rt, "core"),
+					Write: rapid.Bool().Draw(rt, "write"),
+					Line:  rapid.IntRange(0, 3).Draw(rt, "line"),
+					Delay: rapid.IntRange(4300, 6200).Draw(rt, "delay"),
+					Word:  rapid.IntRange(0, 15).Draw(rt, "word"),
+				})
+			}
+		}
 		for i := 0; i < n; i++ {
 			c.Reqs = append(c.Reqs, rigReq{
 				Core:  rapid.IntRange(0, c.Cores-1).Draw(rt, "core"),
